@@ -498,4 +498,4 @@ def nfkd_before_split(ctx, rep):
                 ph = [i for i, t in calls if t[0] == 'direct' and base_name(t[1]).startswith('polyseed_phrase_decode')]
                 okp = bool(ph) and all(addr_base(f, p.ops[0])[0] == addr_base(f, s_.ops[1])[0] and f.inst_dominates(s_, p) for p in ph)
                 rep.check(okp, 'the phrase search receives the token array str_split filled', s_.loc, base_name(f.name), key='CMP-2|%s|tokens' % base_name(f.name))
-        rep.instances(n, 2, 'tokeniser call sites')
+        rep.instances(n, 1, 'tokeniser call sites')
